@@ -1,4 +1,6 @@
 pub mod finds;
+pub mod prims;
+pub mod token;
 pub mod history;
 pub mod ranking;
 pub mod shape;
@@ -19,6 +21,15 @@ pub fn get(id: &str) -> Option<Box<dyn Prop>> {
         "C12" => Box::new(ranking::Ranking(ranking::Which::Empty)),
         "C03" => Box::new(finds::Finds(finds::Which::Prefix)),
         "C04" => Box::new(finds::Finds(finds::Which::Typo)),
+        "C11" => Box::new(token::Token(token::Which::Variants)),
+        "C15" => Box::new(token::Token(token::Which::Invariants)),
+        #[cfg(lucid_suggest_verif)]
+        "C16" => Box::new(prims::Prims(prims::Which::Distance)),
+        #[cfg(lucid_suggest_verif)]
+        "C17" => Box::new(prims::Prims(prims::Which::Jaccard)),
+        "C18" => Box::new(prims::Prims(prims::Which::Index)),
+        #[cfg(lucid_suggest_verif)]
+        "C19" => Box::new(prims::Prims(prims::Which::Unchecked)),
         "C13" => Box::new(finds::Finds(finds::Which::Whole)),
         "C14" => Box::new(finds::Finds(finds::Which::SplitJoin)),
         _ => return None,
